@@ -25,6 +25,9 @@ THIRD ROUND NOTE: two attempts have already been made by other people - one dire
     4: """
 FOURTH ROUND NOTE: three attempts have already been made by other people, mostly in the most obvious function for this property. This time the place is fixed for you - FOCUS: """ + focus + """. Read that code closely, list (in notes.md) at least four distinct ways in which a change THERE could break the property, and pick the one that needs the most specific input to show and is the least likely to be noticed in review. The breakage should need a specific, describable input shape (say exactly which), and everything else should keep working. Avoid one-line operator / constant flips and anything an everyday program would expose at once. If, after reading, you are convinced that no change in the focus area can break this property while the 435 tests still pass, say so in notes.md and choose the nearest place where one can.
 """,
+    6: """
+SIXTH ROUND NOTE: several attempts have been made already, and all the obvious mechanisms are taken. Assume the verification suite under evaluation explores SMALL inputs exhaustively (short lists and strings, shallow nesting, a handful of statements, the usual special numbers) and only sparsely samples larger sizes. Make a change whose breakage shows ONLY on inputs such exploration is unlikely to contain, for example: a size / length / depth / count threshold that is not a round number (more than 37 elements, strings longer than 300 characters, nesting deeper than 6, more than 12 statements or 9 arguments, a record with more than 20 keys); a particular combination of three language features; a particular non-special number (more than 17 significant digits, a value between 2^31 and 2^32, a specific decimal exponent); or a specific Unicode class (combining marks, right-to-left text, astral planes, characters whose upper/lower case has a different length). Such a threshold must look natural in the code (a buffer size, a fast path for small inputs, a chunked loop, a cache with a capacity). State the trigger exactly in notes.md. Read the code the property is anchored in first and list at least four candidate places in notes.md before choosing.
+""",
 }
 text = f"""You are helping to evaluate how well a verification suite detects regressions in the open-source project paul-russo/blots-lang (Blots: a small expression-oriented language written in Rust: pest grammar, tree-walking evaluator, formatter, CLI, WASM bindings).
 
